@@ -225,7 +225,8 @@ def attribute(rep, known, fields_at=None):
     package frames of) a known site's function, or is the construction of an
     object that a known unsynchronised pointer read publishes.  Among several
     entries of one function the one whose field is accessed on that line (by
-    the extracted facts) is preferred."""
+    the extracted facts) is preferred; a line whose extracted accesses are all
+    of other fields is not attributed."""
     for acc in rep["accesses"]:
         fr = pkg_frames(acc)
         for idx, (fn, f, line) in enumerate(fr):
@@ -236,7 +237,10 @@ def attribute(rep, known, fields_at=None):
                 for e in cands:
                     if e["field"] in here:
                         return e
-                return cands[0]
+                # the facts know which fields this line touches and none is a
+                # known one: the report is about something else
+                if not here or any(fn in e.get("publishes", []) for e in cands):
+                    return cands[0]
     return None
 
 
